@@ -44,14 +44,15 @@ def emit_ast(fmt, ir, style="rest", emit_default_doc=False, **kw):
 
     ir = deepcopy(ir)
     if fmt == "class":
-        return cdd.class_.emit.class_(ir, class_name="Cfg", docstring_format=style, emit_default_doc=emit_default_doc)
+        extra = {k: kw[k] for k in ("class_bases", "decorator_list", "emit_call") if k in kw}
+        return cdd.class_.emit.class_(ir, class_name="Cfg", docstring_format=style, emit_default_doc=emit_default_doc, **extra)
     if fmt == "pydantic":
         return cdd.pydantic.emit.pydantic(ir, class_name="Cfg", docstring_format=style, emit_default_doc=emit_default_doc)
     if fmt == "function":
         return cdd.function.emit.function(
             ir,
             function_name="fn",
-            function_type="static",
+            function_type=kw.get("function_type", "static"),
             docstring_format=style,
             emit_default_doc=emit_default_doc,
             type_annotations=kw.get("type_annotations", True),
